@@ -316,6 +316,19 @@ def simRankOK (T : Tables) (rank : Int → Nat) (n : Nat) : Bool :=
     | some st' => decide (rank st' < rank (k : Int))
     | none => true
 
+/-- Length of the `simNext` chain from `st` (capped by the fuel): the canonical ranking. -/
+def simChain (T : Tables) : Nat → Int → Nat
+  | 0, _ => 0
+  | n + 1, st =>
+    match simNext T st with
+    | some st' => simChain T n st' + 1
+    | none => 0
+
+/-- Checker run on every emitted table: the reduce simulation of `_recover` cannot loop from any
+of the `nStates` states (the canonical ranking strictly decreases along its edges). -/
+def recoveryOKB (T : Tables) (nStates : Nat) : Bool :=
+  simRankOK T (simChain T (nStates + 1)) nStates
+
 /-! ## C09: the consumed symbols are the input with stretches replaced by `@error` -/
 
 mutual
